@@ -402,7 +402,61 @@ def h_deadline(rp):
     return out
 
 
-HANDLERS = [("ctparse._ctparse", h_deadline), ("ctparse._regex_stack", h_deadline), ("ctparse._get_labels", h_labels), ("ctparse.ctparse[", h_ctparse), ("regex[", h_reglan),
+EMISSION_POOL = ["May 5th 2021 5:30pm - 6:45pm", "monday or tuesday 9-5", "tomorrow 8pm", "1.2.2020 - 3.2.2020 for 2 days",
+                 "heute 17 uhr bis morgen 9 uhr", "3 4 5", "next friday 12:30 - 14:00"]
+
+
+def h_emission(rp):
+    """stream real candidates and look for a value that is emitted again without a strictly higher score"""
+    import importlib
+    from datetime import datetime
+    C = importlib.import_module("ctparse.ctparse")
+    out = {"func": rp["func"], "clause": rp["clause"]}
+    bad = []
+    for text in EMISSION_POOL:
+        best = {}
+        for p in C.ctparse_gen(text, datetime(2018, 3, 7, 12, 43), timeout=0, max_stack_depth=0, latent_time=False):
+            k = p.resolution
+            if k in best and not (p.score > best[k]):
+                bad.append({"text": text, "value": repr(k), "score": p.score, "already_emitted_with": best[k]})
+                break
+            best[k] = max(p.score, best.get(k, p.score))
+        if len(bad) >= 3:
+            break
+    out["re_emitted_without_better_score"] = bad
+    out["confirmed"] = bool(bad)
+    return out
+
+
+def h_match_rule(rp):
+    """search the smallest predicate matrix on which the real _match_rule deviates from
+    'exactly the windows where every predicate holds, in ascending order'"""
+    import importlib
+    import itertools
+    C = importlib.import_module("ctparse.ctparse")
+    out = {"func": rp["func"], "clause": rp["clause"]}
+    for s_len in range(0, 5):
+        for r_len in range(0, 4):
+            for bits in itertools.product((False, True), repeat=s_len * r_len):
+                T = [[bits[k * s_len + j] for j in range(s_len)] for k in range(r_len)]
+                seq = list(range(s_len))
+                rule = [(lambda x, k=k: T[k][x]) for k in range(r_len)]
+                want = [(a, a + r_len) for a in range(0, s_len - r_len + 1) if all(T[k][a + k] for k in range(r_len))] \
+                    if s_len and r_len else []
+                try:
+                    got = list(C._match_rule(seq, rule))
+                except Exception as e:
+                    got = "raises %r" % e
+                if got != want:
+                    out.update({"confirmed": True, "seq_len": s_len, "rule_len": r_len,
+                                "predicate_matrix_rule_x_seq": T, "real_result": got, "expected": want})
+                    return out
+    out["confirmed"] = False
+    out["searched"] = "all predicate matrices with len(seq) <= 4, len(rule) <= 3"
+    return out
+
+
+HANDLERS = [("ctparse._match_rule", h_match_rule), ("ctparse._ctparse.emission", h_emission), ("ctparse._ctparse", h_deadline), ("ctparse._regex_stack", h_deadline), ("ctparse._get_labels", h_labels), ("ctparse.ctparse[", h_ctparse), ("regex[", h_reglan),
             ("types.Artifact.__eq__", h_eq), ("corpus.parse_nb_string.nb_str", h_roundtrip),
             ("postprocess_latent.apply_postprocessing_rules", h_postprocess),
             ("types.Time.", h_accessor), ("types.Interval.", h_accessor),
